@@ -125,15 +125,32 @@ func (f *vFs) Stat(name string) (os.FileInfo, error) {
 }
 
 type vOpenFile struct {
-	info vInfo
-	data []byte
-	pos  int
-	ents []fs.DirEntry
+	info   vInfo
+	data   []byte
+	pos    int
+	ents   []fs.DirEntry
+	closed bool
 }
 
-func (o *vOpenFile) Stat() (fs.FileInfo, error) { return o.info, nil }
-func (o *vOpenFile) Close() error               { return nil }
+// Like *os.File (what the native file system hands out), and unlike
+// fstest.MapFS, a closed file refuses every further operation.
+func (o *vOpenFile) Stat() (fs.FileInfo, error) {
+	if o.closed {
+		return nil, fs.ErrClosed
+	}
+	return o.info, nil
+}
+func (o *vOpenFile) Close() error {
+	if o.closed {
+		return fs.ErrClosed
+	}
+	o.closed = true
+	return nil
+}
 func (o *vOpenFile) Read(p []byte) (int, error) {
+	if o.closed {
+		return 0, fs.ErrClosed
+	}
 	if o.pos >= len(o.data) {
 		return 0, io.EOF
 	}
@@ -142,6 +159,9 @@ func (o *vOpenFile) Read(p []byte) (int, error) {
 	return n, nil
 }
 func (o *vOpenFile) ReadDir(n int) ([]fs.DirEntry, error) {
+	if o.closed {
+		return nil, fs.ErrClosed
+	}
 	out := o.ents
 	o.ents = nil
 	return out, nil
@@ -221,4 +241,14 @@ func VFsDel(name string) { delete(vCliFs.files, name) }
 func VIssuerSubjectDer(pemText string) (issuer, subject string) {
 	i, s := vIssuerSubjectDer([]byte(pemText))
 	return string(i), string(s)
+}
+
+// VFsFailNextWrite makes the k-th WriteFile from now on fail without writing
+// anything (0 = never).
+func VFsFailNextWrite(k int) {
+	vCliFs.failAt = 0
+	if k > 0 {
+		vCliFs.failAt = vCliFs.nWrites + k
+	}
+	vCliFs.tearAt = -1
 }
